@@ -79,6 +79,13 @@ message received (same start line, headers, framing fields, body bytes, trailers
 theorem logger_identity (l : Logger) (skip : Bool) (m : Msg) : (logMsg l skip m).1 = m := by
   cases l <;> cases skip <;> simp [logMsg, snapshotMsg_id] <;> (repeat' split) <;> simp
 
+/-- In particular the header lines: for every field name the ordered list of its values (repeated
+Cookie / Authorization / Set-Cookie / Via lines, names under keys of different case) is the one the
+message arrived with, after every logger, option and skip flag. -/
+theorem logging_preserves_header_value_lists (l : Logger) (skip : Bool) (m : Msg) (k : Bytes) :
+    ((logMsg l skip m).1.hdr.filter fun kv => kv.1 == k) = m.hdr.filter fun kv => kv.1 == k := by
+  rw [logger_identity]
+
 /-- An exchange marked skip-logging is recorded by none of the loggers. -/
 theorem skip_logging_records_nothing (l : Logger) (m : Msg) (hl : ∀ o, l ≠ .snapshot o) :
     (logMsg l true m).2 = none := by
